@@ -131,7 +131,7 @@ def fieldUses : Fields → List Stmt
   | .bare n r => .use (str "e") (title n) :: fieldUses r
   | .typed n _ r => .use (str "e") (title n) :: fieldUses r
 
-/-- the format string of `Error()` (main.go:170-177) -/
+/-- the format string of `Error()` (main.go:171-178) -/
 def errorFormat (fs : Fields) : Bytes :=
   str "(" ++ eachName (fun f last => title f ++ str ": %v" ++ (if last then [] else str ", ")) fs ++ str ")"
 
